@@ -72,7 +72,23 @@ FOCUS7 = ("In this round assume the property is guarded by a strong randomized d
           "but wrong for the generic contract they implement, in a way that only one shipped configuration exposes; "
           "an off-by-one in which of several equally plausible rows / cells / emitters is picked, visible only when "
           "those candidates differ in a secondary attribute (an extra field, the solution, the measures).")
-FOCUS = {"4": FOCUS4, "5": FOCUS5, "6": FOCUS6, "7": FOCUS7}.get(sys.argv[3] if len(sys.argv) > 3 else "", FOCUS3)
+FOCUS8 = ("In this round assume a strong randomized differential checker with fault injection already guards the property "
+          "(alternative argument forms, defaults, dtype mixes, rounding, ties, several instances, pickling, long "
+          "histories, size thresholds, rarely used API). Look for breakage that needs TWO COOPERATING SITES that each "
+          "look fine alone (a helper whose contract is loosened in one file and a caller in another file that relied on "
+          "the old contract; a value cached in one method and invalidated in another; a field renamed or re-ordered in "
+          "one place and consumed positionally in another); for what happens AFTER A FAILURE at a particular point (a "
+          "call that raises half-way -- a rejected add, a tell with a wrong-length argument, an ask out of order, a "
+          "KeyboardInterrupt-like exception inside a user callback / custom transform / custom ranker -- after which "
+          "the object is used again and now misbehaves although the failed call was correctly rejected); for a "
+          "particular INTERLEAVING of legal calls (ask twice before tell, ask / ask_dqd / tell_dqd / tell order, two "
+          "schedulers or two emitters sharing one archive, an archive used as both `archive` and `result_archive`, the "
+          "same emitter object listed twice, adding to or clearing an archive while iterating over it, reading a "
+          "result object after the archive has changed); for user EXTENSION points (a subclass of an archive, emitter, "
+          "ranker or operator that overrides one documented hook; a user-supplied callable, dtype object, Generator or "
+          "SeedSequence) that the shipped classes never exercise; and for copy / deepcopy / pickle round trips FOLLOWED "
+          "BY MORE WORK on both the copy and the original.")
+FOCUS = {"8": FOCUS8, "4": FOCUS4, "5": FOCUS5, "6": FOCUS6, "7": FOCUS7}.get(sys.argv[3] if len(sys.argv) > 3 else "", FOCUS3)
 print(f"""You are testing how well a semantic property of the Python library pyribs (quality-diversity optimization; package `ribs`) is protected against regressions. You have your own scratch git worktree of the repository at {wt} (work ONLY there and in {wt}_out; do not read or touch /repo, /verif or any other directory outside {wt}, {wt}_out and the Python environment). Run Python with `PYTHONPATH={wt} /venv/bin/python` so that your modified copy of `ribs` is imported (check `ribs.__file__`). NEVER use `git stash` (it is shared between worktrees): use `git diff > file`, `git apply`, `git apply -R`, `git checkout -- .`.
 
 THE PROPERTY ({pid}: {p['title']}):
